@@ -240,6 +240,8 @@ cmp_hs_accept = _cmp_fields('hs-accept', ['status', 'hijacked', 'accept', 'proto
 def cmp_hs_dial(prop, case, impl, model):
     if impl.get('ok') == '2':
         return [('violation', 'hs-dial:conn-with-error', 'Dial returned an error AND a connection')]
+    if impl.get('keyok') == '3':
+        return [('violation', 'hs-dial:key-reused', 'two Dial attempts sent the same Sec-WebSocket-Key: the nonce is not fresh')]
     if impl.get('keyok') != '1':
         return [('violation', 'hs-dial:key', 'the Sec-WebSocket-Key sent is not one base64 value of 16 bytes')]
     if impl.get('hdrkept', '1') != '1':
